@@ -16,7 +16,7 @@ from __future__ import annotations
 
 from props.common import (MSG_SPECS, PART_SPECS, VECTOR_KINDS, PLAIN_KINDS, O, R, Condition, Draw,
                           draw_field, make_condition, Reject, msg_class, msg_view, part_class,
-                          part_view, verdict, library_message_classes, note)
+                          part_view, verdict, library_message_classes, note, MODE)
 
 ENC = ("indi.message.base.IndiMessage.to_dict", "indi.message.base.IndiMessage.__eq__",
        "indi.message.base.IndiMessagePart.to_dict", "indi.message.base.IndiMessagePart.__eq__",
@@ -127,7 +127,8 @@ def perturb(kind, n, maxlen):
         b = msg_class(kind)(**kw2)
         same = msg_view(a) == msg_view(b)
         eq, qe = (a == b), (b == a)
-        note("op", op, "views", msg_view(a), msg_view(b), "a==b", eq, "b==a", qe)
+        if MODE.trace is not None:
+            note("op", op, "views", msg_view(a), msg_view(b), "a==b", eq, "b==a", qe)
         return verdict(eq == same and qe == same and a == a, "== disagrees with structural equality")
     return body
 
